@@ -816,6 +816,8 @@ class Interp:
                 st.steps += len(stmts) + 1
                 if st.steps > self.max_steps:
                     raise Unsupported('step budget exceeded')
+                if FORKER[0] is not None and FORKER[0].deadline and (st.steps & 0x3ff) < len(stmts) + 1 and time.time() > FORKER[0].deadline:
+                    raise Unsupported('deadline reached inside a path')
                 k = t[0]
                 if k == 'goto':
                     bb = t[1]
